@@ -100,6 +100,19 @@ theorem dot1q_payload_shorter (old : Dot1Q) (d : GSlice) (o : DecOut Dot1Q)
     have hl : 4 ≤ d.vis.length := by unfold GSlice.len at hs; omega
     simp only [dot1qDecSpec, GSlice.len, List.length_drop]; omega
 
+/-- `DecodingLayerParser.DecodeLayers` over {Ethernet, Dot1Q} with IgnorePanic (panics let through)
+    never panics: any state of the two re-used layer objects, any bytes, any capacity. -/
+theorem dlp_no_panic (eth : Ethernet) (dot1q : Dot1Q) (d : GSlice) (k : PanicKind) :
+    dlpDecodeLayers eth dot1q d ≠ .panic k := dlpLoop_no_panic _ _ _ _ k
+
+/-- Termination ("bounded time") of the parser loop: the model's loop is fuel-bounded recursion, and
+    the fuel `|data| + 1` used by `dlpDecodeLayers` suffices — every larger amount gives the same
+    run, because every iteration consumes at least 4 bytes (`eth_payload_shorter`,
+    `dot1q_payload_shorter`).  (DecodeFromBytes of both layers is loop-free.) -/
+theorem dlp_fuel_suffices (fuel : Nat) (st : DlpState) (typ : Nat) (d : GSlice) (h : d.len < fuel) :
+    dlpLoop fuel st typ d = dlpLoop (d.len + 1) st typ d :=
+  dlpLoop_fuel fuel (d.len + 1) st typ d h (Nat.lt_succ_self _)
+
 /-! Non-vacuity: the error and the success paths are both inhabited, with spare capacity. -/
 
 example : decodeEth Ethernet.fresh [1,2,3] [9,9,9,9,9,9,9,9,9,9,9,9,9,9,9,9] = .err "ethernet" := by decide
